@@ -28,13 +28,32 @@ Definition no_appents (l : list msg) : Prop := Forall (fun m => ~ is_appents m) 
 Definition resp_ok (RT : N -> N -> Prop) (L : list entry) (idx : N) : Prop :=
   idx = 0 \/ exists e, nth_error L (N.to_nat (idx - 1)) = Some e /\ RT idx (e_term e).
 
-Definition mgood (RT : N -> N -> Prop) (L : list entry) (m : msg) : Prop :=
+Definition last_term (L : list entry) : N := match rev L with e :: _ => e_term e | [] => 0 end.
+
+(* canGrantVote's comparison: the log L is not more up-to-date than a candidate log with last index li and last term lt *)
+Definition uptodate (L : list entry) (li lt : N) : Prop :=
+  last_term L < lt \/ (lt = last_term L /\ N.of_nat (length L) <= li).
+
+Definition mgood (RT : N -> N -> Prop) (VQ : nid -> list entry -> Prop) (LQ : list entry -> N -> Prop)
+  (L : list entry) (m : msg) : Prop :=
   match m_body m with
   | AppEnts pi pt _ oe => slice L pi pt oe
   | AppEntsResp true idx _ => resp_ok RT L idx
+  | VoteReq li lt => li = N.of_nat (length L) /\ lt = last_term L /\ LQ L (m_term m)
+  | VoteResp true => VQ (m_to m) L
   | InstallSnap _ _ _ => False
   | _ => True
   end.
+
+Lemma last_term_at L t :
+  term_at L (N.of_nat (length L)) t -> (length L = 0%nat -> t = 0) -> t = last_term L.
+Proof.
+  intros Ta Z. unfold last_term. destruct L as [| x r] using rev_ind; [simpl; auto|].
+  rewrite rev_app_distr. simpl. destruct Ta as [E | [e [E1 E2]]].
+  - rewrite app_length in E. simpl in E. lia.
+  - rewrite app_length in E1. simpl in E1. rewrite nth_error_app2 in E1 by lia.
+    replace (N.to_nat (N.of_nat (length r + 1) - 1) - length r)%nat with 0%nat in E1 by lia. simpl in E1. inversion E1. subst. auto.
+Qed.
 
 Lemma resp_ok_app RT L x idx : resp_ok RT L idx -> resp_ok RT (L ++ x) idx.
 Proof.
@@ -58,8 +77,6 @@ Proof.
   replace (length ents - length (skipn (N.to_nat pi) L))%nat with 0%nat by lia. simpl. rewrite app_nil_r. exact C.
 Qed.
 
-Lemma mgood_app RT L x m : mgood RT L m -> mgood RT (L ++ x) m.
-Proof. unfold mgood. destruct (m_body m); auto; [apply slice_app|]. destruct success; auto. apply resp_ok_app. Qed.
 
 Record ainp := { ai_term : N; ai_pi : N; ai_pt : N; ai_ents : list entry }.
 
@@ -83,6 +100,14 @@ Section LV.
   Variable inp : option ainp.
   Variable boot : option entry.
   Variable RT : N -> N -> Prop.
+  Variable VQ : nid -> list entry -> Prop.
+  Variable LQ : list entry -> N -> Prop.
+  Hypothesis HLQ : forall t, p_term (n_p s0) < t -> LQ (p_log (n_p s0)) t.
+
+  (* the old log and the delivered entries disagree (different terms) at position c *)
+  Definition conflict_at (L0 : list entry) (a : ainp) (c : nat) : Prop :=
+    (N.to_nat (ai_pi a) <= c)%nat /\
+    exists e1 e2, nth_error L0 c = Some e1 /\ nth_error (ai_ents a) (c - N.to_nat (ai_pi a)) = Some e2 /\ e_term e1 <> e_term e2.
 
   Definition merged (L0 L : list entry) (a : ainp) : Prop :=
     exists c : nat,
@@ -90,14 +115,15 @@ Section LV.
       L = firstn c L0 ++ skipn (c - pi) (ai_ents a) /\ (pi <= c <= length L0)%nat /\ (c <= pi + length (ai_ents a))%nat /\
       term_at L0 (ai_pi a) (ai_pt a) /\
       (c = pi \/ exists e1 e2, nth_error L0 (c - 1) = Some e1 /\ nth_error (ai_ents a) (c - 1 - pi) = Some e2 /\
-                               (pi < c)%nat /\ e_term e1 = e_term e2).
+                               (pi < c)%nat /\ e_term e1 = e_term e2) /\
+      (c = length L0 \/ conflict_at L0 a c).
 
   Definition LR (p : pstate) (r : role) : Prop :=
     let L0 := p_log (n_p s0) in
     let L := p_log p in
     let ns := ~ (n_role s0 = Leader /\ p_term p = p_term (n_p s0)) in
     L = L0 \/
-    (r = Follower /\ ns /\ exists c, L = firstn c L0) \/
+    (r = Follower /\ ns /\ exists a c, inp = Some a /\ p_term p = ai_term a /\ L = firstn c L0 /\ conflict_at L0 a c) \/
     (r = Follower /\ ns /\ exists b, boot = Some b /\ L0 = [] /\ L = [b]) \/
     (n_role s0 = Leader /\ p_term p = p_term (n_p s0) /\
      exists new, L = L0 ++ new /\ Forall (fun e => e_term e = p_term (n_p s0)) new) \/
@@ -129,7 +155,7 @@ Section LV.
     v_rt : p_term (n_p s) = p_term (n_p s0) ->
            n_role s = n_role s0 \/ n_role s = Follower \/ (n_role s0 = Candidate /\ n_role s = Leader);
     v_lr : LR (n_p s) (n_role s);
-    v_msgs : Forall (mgood RT (p_log (n_p s))) (n_msgs s);
+    v_msgs : Forall (mgood RT VQ LQ (p_log (n_p s))) (n_msgs s);
     v_lead : no_appents (n_msgs s) \/ leaderish s
   }.
 
@@ -189,7 +215,7 @@ Section LV.
     p_log (n_p s') = p_log (n_p s) -> p_snap (n_p s') = p_snap (n_p s) -> p_term (n_p s') = p_term (n_p s) ->
     (n_role s' = n_role s \/ (n_role s' = Follower /\ (strong s \/ no_appents (n_msgs s')))) ->
     (n_conf s' = n_conf s \/ 1 <= p_term (n_p s)) ->
-    (exists new, n_msgs s' = n_msgs s ++ new /\ Forall (mgood RT (p_log (n_p s))) new /\ (no_appents new \/ leaderish s')) ->
+    (exists new, n_msgs s' = n_msgs s ++ new /\ Forall (mgood RT VQ LQ (p_log (n_p s))) new /\ (no_appents new \/ leaderish s')) ->
     inv s'.
   Proof.
     intros I L S T Rl C [new [M [G Ld]]]. destruct I.
@@ -222,7 +248,7 @@ Section LV.
   Qed.
 
   Lemma inv_send s to b :
-    inv s -> mgood RT (p_log (n_p s)) {| m_term := 0; m_from := 0; m_to := 0; m_fromg := 0; m_tog := 0; m_epoch := 0; m_body := b |} ->
+    inv s -> mgood RT VQ LQ (p_log (n_p s)) {| m_term := p_term (n_p s); m_from := 0; m_to := to; m_fromg := 0; m_tog := 0; m_epoch := 0; m_body := b |} ->
     ((match b with AppEnts _ _ _ _ => False | _ => True end) \/ leaderish s) ->
     inv (send s to b).
   Proof.
@@ -521,7 +547,9 @@ Section LV.
     conflict_index s ents = Ret (ci, any) ->
     ents <> [] /\
     if any then exists j, (j < length ents)%nat /\ (N.to_nat pi + j < length (p_log (n_p s)))%nat /\ ci = pi + N.of_nat j + 1 /\
-                          (j = 0%nat \/ ((0 < j)%nat /\ agree (p_log (n_p s)) ents (N.to_nat pi) (N.to_nat pi + j - 1)))
+                          (j = 0%nat \/ ((0 < j)%nat /\ agree (p_log (n_p s)) ents (N.to_nat pi) (N.to_nat pi + j - 1))) /\
+                          (exists e1 e2, nth_error (p_log (n_p s)) (N.to_nat pi + j) = Some e1 /\ nth_error ents j = Some e2 /\
+                                         e_term e1 <> e_term e2)
     else (Nat.min (length (p_log (n_p s)) - N.to_nat pi) (length ents) = 0%nat \/
           ((0 < Nat.min (length (p_log (n_p s)) - N.to_nat pi) (length ents))%nat /\
            agree (p_log (n_p s)) ents (N.to_nat pi)
@@ -562,6 +590,8 @@ Section LV.
     - inversion A4. subst ci any.
       exists j. split; [unfold ov in Hj; lia|]. split; [unfold ov in Hj; lia|].
       split; [rewrite (wf_from_nth _ _ _ _ He A1); lia|].
+      split.
+      2: { exists b, a. split; [rewrite <- A2; symmetry; apply Hil; lia|]. split; auto. }
       destruct (Nat.eq_dec j 0) as [-> | Hj0]; [left; reflexivity | right]. split; [lia|].
       destruct (nth_error_ex L (pin + j - 1)) as [e1 X1]; [unfold ov in Hj; lia|].
       destruct (nth_error_ex ents (j - 1)) as [e2 X2]; [unfold ov in Hj; lia|].
@@ -609,43 +639,51 @@ Section LV.
     Let L0 := p_log (n_p s0).
     Let pin := N.to_nat pi.
 
+    Let ain := {| ai_term := p_term (n_p s); ai_pi := pi; ai_pt := pt; ai_ents := ents |}.
+
     Definition qtrunc (c : nat) : Prop :=
       (pin <= c <= length L0)%nat /\
       ((c < pin + length ents)%nat -> c = pin \/ ((pin < c)%nat /\ agree L0 ents pin (c - 1))) /\
-      ((pin + length ents <= c)%nat -> agree L0 ents pin (pin + length ents - 1)).
+      ((pin + length ents <= c)%nat -> agree L0 ents pin (pin + length ents - 1)) /\
+      (c = length L0 \/ conflict_at L0 ain c).
 
     Lemma inv_trunc c y :
+      conflict_at L0 ain c ->
       (c <= length L0)%nat -> p_log (n_p y) = firstn c L0 -> p_snap (n_p y) = None -> p_term (n_p y) = p_term (n_p s) ->
       n_role y = Follower -> n_msgs y = [] -> inv y.
     Proof.
-      intros Hc Ly Sy Ty Ry My. destruct I. constructor.
+      intros Hcf Hc Ly Sy Ty Ry My. destruct I. constructor.
       - exact Sy.
       - rewrite Ly. apply wf_from_firstn. unfold L0. rewrite <- Hl. auto.
       - right. rewrite Ty. exact Ht1.
       - intro X. congruence.
       - rewrite Ty. auto.
       - intros E. right. left. exact Ry.
-      - rewrite Ry. unfold LR. cbv zeta. right. left. split; auto. split; [rewrite Ty; exact Hns|]. exists c. exact Ly.
+      - rewrite Ry. unfold LR. cbv zeta. right. left. split; auto. split; [rewrite Ty; exact Hns|].
+        exists ain, c. split; [exact Hin|]. split; [exact Ty|]. split; [exact Ly | exact Hcf].
       - rewrite My. constructor.
       - left. rewrite My. constructor.
     Qed.
 
     Lemma pinv_trunc c p :
+      conflict_at L0 ain c ->
       p_log p = firstn c L0 -> p_snap p = None -> p_term p = p_term (n_p s) -> pinv p.
     Proof.
-      intros Lp Sp Tp. destruct I. constructor.
+      intros Hcf Lp Sp Tp. destruct I. constructor.
       - exact Sp.
       - rewrite Lp. apply wf_from_firstn. unfold L0. rewrite <- Hl. auto.
       - right. rewrite Tp. exact Ht1.
       - rewrite Tp. auto.
-      - unfold LR. cbv zeta. right. left. split; auto. split; [rewrite Tp; exact Hns|]. exists c. exact Lp.
+      - unfold LR. cbv zeta. right. left. split; auto. split; [rewrite Tp; exact Hns|].
+        exists ain, c. split; [exact Hin|]. split; [exact Tp|]. split; [exact Lp | exact Hcf].
     Qed.
 
     Lemma merged_ok c :
       qtrunc c -> (c < pin + length ents)%nat ->
       merged L0 (firstn c L0 ++ skipn (c - pin) ents) {| ai_term := p_term (n_p s); ai_pi := pi; ai_pt := pt; ai_ents := ents |}.
     Proof.
-      intros [B [A _]] Hlt. exists c. simpl. fold pin. split; auto. split; auto. split; [lia|]. split; auto.
+      intros [B [A [_ Cf]]] Hlt. exists c. simpl. fold pin. split; auto. split; auto. split; [lia|]. split; auto.
+      split; [| exact Cf].
       destruct (A Hlt) as [E | [Hp [e1 [e2 [X1 [X2 [X3 X4]]]]]]]; [left; exact E | right].
       exists e1, e2. auto.
     Qed.
@@ -726,28 +764,31 @@ Section LV.
     change (p_log (n_p sc)) with (p_log (n_p s)) in *. rewrite Hl in *.
     set (L0 := p_log (n_p s0)) in *. set (pin := N.to_nat pi) in *.
     eapply postQ_bind with (Q := fun y => n_msgs y = [] /\ n_role y = Follower /\ p_term (n_p y) = p_term (n_p s) /\
-                                          exists c, p_log (n_p y) = firstn c L0 /\ qtrunc pi ents c).
+                                          exists c, p_log (n_p y) = firstn c L0 /\ qtrunc s pi pt ents c).
     - destruct any.
-      + destruct Hspec as [j [Hj1 [Hj2 [Hci Hag]]]].
-        assert (Hq : qtrunc pi ents (pin + j)).
-        { split; [fold L0; fold pin; lia|]. split; [| fold pin; intro; lia]. intros _. fold pin. fold L0.
+      + destruct Hspec as [j [Hj1 [Hj2 [Hci [Hag Hmis]]]]].
+        assert (Hcf : conflict_at L0 {| ai_term := p_term (n_p s); ai_pi := pi; ai_pt := pt; ai_ents := ents |} (pin + j)).
+        { unfold conflict_at. simpl. fold pin. split; [lia|]. destruct Hmis as [e1 [e2 [X1 [X2 X3]]]].
+          exists e1, e2. replace (pin + j - pin)%nat with j by lia. auto. }
+        assert (Hq : qtrunc s pi pt ents (pin + j)).
+        { split; [fold L0; fold pin; lia|]. split; [| split; [fold pin; intro; lia | right; exact Hcf]]. intros _. fold pin. fold L0.
           destruct Hag as [-> | [Hj0 Hag]]; [left; lia | right]. split; [lia | exact Hag]. }
         assert (Htr : mem_truncate (ci - 1) (p_log (n_p s)) = firstn (pin + j) L0).
         { rewrite mem_truncate_wf by (rewrite Hl; exact HwL). rewrite Hl. fold L0. f_equal. unfold pin. lia. }
         destruct (do_mut_cases (MTruncate (ci - 1)) sc) as [E | E]; rewrite E; cbv beta iota delta [bind].
-        * eapply pinv_trunc with (s := s) (c := (pin + j)%nat); auto. apply (v_snap s I).
+        * eapply pinv_trunc with (s := s) (c := (pin + j)%nat); eauto. apply (v_snap s I).
         * match goal with |- postQ _ (match n_conf ?x with _ => _ end) => set (x1 := x) end.
           assert (Hy : forall y, n_p y = n_p x1 -> n_role y = Follower -> n_msgs y = [] ->
                          inv y /\ (n_msgs y = [] /\ n_role y = Follower /\ p_term (n_p y) = p_term (n_p s) /\
-                                    exists c, p_log (n_p y) = firstn c L0 /\ qtrunc pi ents c)).
+                                    exists c, p_log (n_p y) = firstn c L0 /\ qtrunc s pi pt ents c)).
           { intros y Py Ry My. split.
-            - eapply inv_trunc with (s := s) (c := (pin + j)%nat); try assumption;
+            - eapply inv_trunc with (s := s) (c := (pin + j)%nat); try eassumption;
                 try (rewrite Py; first [exact Htr | apply (v_snap s I) | reflexivity]); try (fold L0; lia).
             - repeat split; auto; [rewrite Py; reflexivity|]. exists (pin + j)%nat. split; [rewrite Py; exact Htr | exact Hq]. }
           destruct (n_conf x1) as [c0 |]; [destruct (ci <=? mb_index c0)|]; apply Hy; auto.
       + simpl. split; [exact Ic|]. repeat split; auto. exists (length L0). split; [rewrite firstn_all; exact Hl|].
         fold pin in Hspec. fold L0 in Hspec.
-        split; [fold pin; fold L0; lia|]. split.
+        split; [fold pin; fold L0; lia|]. split; [| split; [| left; reflexivity]].
         * intro Hlt. fold pin. fold L0. fold pin in Hlt.
           assert (Hov : Nat.min (length L0 - pin) (length ents) = (length L0 - pin)%nat) by lia. rewrite Hov in Hspec.
           destruct Hspec as [Z | [Z Ag]]; [left; lia | right].
@@ -767,7 +808,7 @@ Section LV.
         replace (pi + 1 + N.of_nat (length ents) - 1) with (pi + N.of_nat (length ents - 1) + 1) by lia. apply (Hrt _ _ X2). }
       destruct (pi + 1 + N.of_nat (length ents) - 1 <=? N.of_nat c) eqn:E.
       { apply post_follower_maybe_commit. apply inv_resp; auto. intros _. right.
-        apply N.leb_le in E. destruct Qc as [_ [_ Q3]].
+        apply N.leb_le in E. destruct Qc as [_ [_ [Q3 _]]].
         destruct (Q3 ltac:(unfold pin; lia)) as [e1 [e2 [X1 [X2 [X3 X4]]]]].
         exists e1. split.
         - rewrite Ly. rewrite nth_error_firstn'.
@@ -827,9 +868,27 @@ Section LV.
   Definition mcond (s : node) (m : msg) : Prop :=
     match m_body m with
     | AppEnts pi pt _ oes => in_ok s pi pt oes
+    | VoteReq li lt => forall L, uptodate L li lt -> VQ (m_from m) L
     | InstallSnap _ _ _ => False
     | _ => True
     end.
+
+  Lemma can_grant_uptodate s from li lt :
+    p_snap (n_p s) = None -> wf_from 1 (p_log (n_p s)) -> can_grant_vote s from li lt = Ret true ->
+    uptodate (p_log (n_p s)) li lt.
+  Proof.
+    intros Hs Hw. unfold can_grant_vote.
+    destruct (negb (p_vote (n_p s) =? 0) && negb (p_vote (n_p s) =? from)); [discriminate|].
+    rewrite (last_index_wf _ Hs Hw).
+    destruct (st_term (n_p s) (llen (n_p s))) as [[ltv ok] | |] eqn:E; simpl; try discriminate.
+    destruct (st_term_wf _ _ _ _ Hs Hw E) as [Ok [_ [Z Ta]]]. subst ok. simpl.
+    assert (El : ltv = last_term (p_log (n_p s))).
+    { apply last_term_at; [exact Ta|]. intro X. apply Z. unfold llen. rewrite X. reflexivity. }
+    intro H. inversion H as [H1]. unfold uptodate. rewrite <- El. unfold llen in H1.
+    apply orb_true_iff in H1. destruct H1 as [H1 | H1].
+    - left. apply N.ltb_lt. exact H1.
+    - right. apply andb_true_iff in H1. destruct H1 as [A B]. apply N.eqb_eq in A. apply N.leb_le in B. auto.
+  Qed.
 
   Lemma post_handle_follower s m :
     inv s -> n_msgs s = [] -> n_role s = Follower -> p_log (n_p s) = p_log (n_p s0) -> mcond s m -> ~ strong s ->
@@ -841,26 +900,28 @@ Section LV.
       + unfold in_ok in *. destruct Hc as [Hc0 Hc]. split; auto. destruct ents; auto. rewrite A2. exact Hc.
       + unfold strong in *. rewrite A2. exact Hns.
     - simpl. exact I.
-    - apply post_bind_pure; [apply pure_can_grant_vote|]. intros g _.
-      eapply post_bind.
-      + destruct g; [apply post_do_mut_light; auto; exact Logic.I | simpl; auto].
-      + intros s1 I1. simpl. apply inv_send; [exact I1 | exact Logic.I | left; exact Logic.I].
+    - apply post_bind_pure; [apply pure_can_grant_vote|]. intros g Hg.
+      eapply postQ_bind with (Q := samev s).
+      + destruct g; [apply postQ_do_mut_light; auto; exact Logic.I | apply postQ_ret; auto using samev_refl].
+      + intros s1 I1 [S1 _]. simpl. apply inv_send; [exact I1 | | left; exact Logic.I].
+        unfold mgood. simpl. destruct g; [| exact Logic.I]. rewrite S1. apply Hc.
+        apply (can_grant_uptodate s (m_from m) last_idx last_term0 (v_snap s I) (v_wf s I) Hg).
     - simpl. exact I.
     - contradiction.
   Qed.
 
   (* ---------------------------------------------------------------- candidate *)
   Lemma fold_send_inv (ms : list nid) li lt : forall s,
-    inv s -> no_appents (n_msgs s) ->
+    inv s -> no_appents (n_msgs s) -> li = N.of_nat (length (p_log (n_p s))) -> lt = last_term (p_log (n_p s)) ->
+    LQ (p_log (n_p s)) (p_term (n_p s)) ->
     let s' := fold_left (fun a m => if m =? n_id a then a else send a m (VoteReq li lt)) ms s in
     inv s' /\ no_appents (n_msgs s') /\ n_role s' = n_role s.
   Proof.
-    induction ms as [| m r IH]; intros s I Na; simpl; auto.
+    induction ms as [| m r IH]; intros s I Na Hli Hlt Hlq; simpl; auto.
     destruct (m =? n_id s); [apply IH; auto|].
-    destruct (IH (send s m (VoteReq li lt))) as [A [B C]].
-    - apply inv_send; [exact I | exact Logic.I | left; exact Logic.I].
+    destruct (IH (send s m (VoteReq li lt))) as [A [B C]]; auto.
+    - apply inv_send; [exact I | unfold mgood; simpl; auto | left; exact Logic.I].
     - simpl. apply no_appents_app. split; auto. constructor; [| constructor]. unfold is_appents. simpl. auto.
-    - auto.
   Qed.
 
   Lemma post_become_candidate s :
@@ -893,10 +954,18 @@ Section LV.
       assert (I2 : inv s2 /\ n_msgs s2 = [] /\ n_role s2 = Candidate).
       { unfold s2. destruct (in_latest_conf x1); (split; [first [exact I1 | vol] | split; [exact Hm | reflexivity]]). }
       destruct I2 as [I2 [M2 R2]].
-      apply post_bind_pure; [apply pure_st_term|]. intros [lt ok] _.
+      apply post_bind_pure; [apply pure_st_term|]. intros [lt ok] Hst.
+      assert (Hli : last_index (n_p s2) = N.of_nat (length (p_log (n_p s2)))) by (apply (last_index_wf _ (v_snap s2 I2) (v_wf s2 I2))).
+      assert (Hlt : lt = last_term (p_log (n_p s2))).
+      { rewrite Hli in Hst. destruct (st_term_wf _ _ _ _ (v_snap s2 I2) (v_wf s2 I2) Hst) as [_ [_ [Z Ta]]].
+        apply last_term_at; [exact Ta|]. intro X. apply Z. rewrite X. reflexivity. }
+      assert (Hlq2 : LQ (p_log (n_p s2)) (p_term (n_p s2))).
+      { assert (E1 : p_log (n_p s2) = p_log (n_p s0)) by (unfold s2; destruct (in_latest_conf x1); exact Hl).
+        assert (E2 : p_term (n_p s2) = p_term (n_p s) + 1) by (unfold s2; destruct (in_latest_conf x1); reflexivity).
+        rewrite E1, E2. apply HLQ. pose proof (v_tm s I). lia. }
       destruct (negb ok); [exact Logic.I|]. destruct (n_conf s2); [| exact Logic.I].
       match goal with |- post (check_if_elected (set_candidate ?x _ _)) =>
-        destruct (fold_send_inv (mb_members m) (last_index (n_p s2)) lt s2 I2) as [A [B C]]; [rewrite M2; constructor|];
+        destruct (fold_send_inv (mb_members m) (last_index (n_p s2)) lt s2 I2) as [A [B C]]; [rewrite M2; constructor | exact Hli | exact Hlt | exact Hlq2 |];
         apply post_check_if_elected; [eapply inv_vol with (s := x); auto | simpl; congruence | simpl; exact B] end.
   Qed.
 
@@ -932,6 +1001,7 @@ Section LV.
         | Some ents => inp = Some {| ai_term := m_term m; ai_pi := pi; ai_pt := pt; ai_ents := ents |} /\ wf_from (pi + 1) ents /\ 1 <= m_term m
         | None => True
         end
+    | VoteReq li lt => forall L, uptodate L li lt -> VQ (m_from m) L
     | InstallSnap _ _ _ => False
     | _ => True
     end.
@@ -1000,10 +1070,10 @@ Section LV.
   Qed.
 
   Lemma post_log_append_leader s es :
-    inv s -> strong s -> n_role s = Leader -> p_log (n_p s) = p_log (n_p s0) ->
+    inv s -> strong s -> n_role s = Leader -> p_log (n_p s) = p_log (n_p s0) -> n_msgs s = [] ->
     postQ strong (log_append s (stamp es (last_index (n_p s) + 1) (p_term (n_p s)))).
   Proof.
-    intros I St Hrl Hl. unfold log_append.
+    intros I St Hrl Hl Hmsg. unfold log_append.
     rewrite (last_index_wf _ (v_snap s I) (v_wf s I)). unfold llen.
     destruct (stamp_wf es (N.of_nat (length (p_log (n_p s))) + 1) (p_term (n_p s))) as [Ws Ts].
     set (new := stamp es (N.of_nat (length (p_log (n_p s))) + 1) (p_term (n_p s))) in *.
@@ -1019,13 +1089,13 @@ Section LV.
     - destruct I. constructor; simpl; try rewrite Hma; simpl; auto.
     - split; [| unfold strong in *; simpl; exact St].
       destruct I. constructor; simpl; try rewrite Hma; simpl; auto.
-      eapply Forall_impl; [| exact v_msgs0]. intros m. apply mgood_app.
+      rewrite Hmsg. constructor.
   Qed.
 
   Lemma post_leader_propose s es :
-    inv s -> strong s -> n_role s = Leader -> p_log (n_p s) = p_log (n_p s0) -> post (leader_propose s es).
+    inv s -> strong s -> n_role s = Leader -> p_log (n_p s) = p_log (n_p s0) -> n_msgs s = [] -> post (leader_propose s es).
   Proof.
-    intros I St Hrl Hl. unfold leader_propose.
+    intros I St Hrl Hl Hmsg. unfold leader_propose.
     eapply postQ_bind; [apply post_log_append_leader; auto|]. intros s1 I1 St1.
     eapply postQ_bind with (Q := strong).
     - apply post_for_peers; auto. intros s3 p I3 St3.
@@ -1036,10 +1106,10 @@ Section LV.
   Qed.
 
   Lemma post2_propose s es :
-    inv s -> p_log (n_p s) = p_log (n_p s0) -> n_role s = n_role s0 -> p_term (n_p s) = p_term (n_p s0) ->
+    inv s -> p_log (n_p s) = p_log (n_p s0) -> n_role s = n_role s0 -> p_term (n_p s) = p_term (n_p s0) -> n_msgs s = [] ->
     post2 (propose s es).
   Proof.
-    intros I Hl Hr Ht. unfold propose. destruct (n_role s) eqn:Er; simpl; auto.
+    intros I Hl Hr Ht Hmsg. unfold propose. destruct (n_role s) eqn:Er; simpl; auto.
     apply post2_of_post. apply post_leader_propose; auto. split; congruence.
   Qed.
 
@@ -1167,25 +1237,40 @@ Definition rt_of (ev : event) (idx t : N) : Prop :=
   | _ => False
   end.
 
-Lemma evok4_evok3 ev : evok4 ev -> evok3 (inp_of ev) (boot_of ev) (rt_of ev) ev.
+(* a granted vote: the delivered message is a VoteReq from the node the vote goes to, and the voter's log is not more up-to-date *)
+Definition vq_of (ev : event) (to : nid) (L : list entry) : Prop :=
+  match ev with
+  | EDeliver m => match m_body m with
+                  | VoteReq li lt => to = m_from m /\ uptodate L li lt
+                  | _ => False
+                  end
+  | _ => False
+  end.
+
+Lemma evok4_evok3 ev : evok4 ev -> evok3 (inp_of ev) (boot_of ev) (rt_of ev) (vq_of ev) ev.
 Proof.
   destruct ev; simpl; auto. unfold mok3, rt_ok. destruct (m_body m) eqn:Eb; auto.
-  intro H. unfold rt_of. rewrite Eb. split.
-  - split; [left; auto|]. destruct ents as [es |]; auto. intros j e Hj. right. exists es, j, e. auto.
-  - destruct ents; auto.
+  - intro H. unfold rt_of. rewrite Eb. split.
+    + split; [left; auto|]. destruct ents as [es |]; auto. intros j e Hj. right. exists es, j, e. auto.
+    + destruct ents; auto.
+  - intros _ L HL. unfold vq_of. rewrite Eb. auto.
 Qed.
+
+(* a VoteReq is sent with the log the event started with, right after the term was raised *)
+Definition lq_of (s : node) (L : list entry) (t : N) : Prop := L = p_log (n_p s) /\ p_term (n_p s) < t.
 
 Theorem run_event_crash_lm s ev k crashed st s' :
   base s -> evok4 ev -> run_event_crash (settle s) ev k = Ret (crashed, st, s') ->
-  inv (with_budget (settle s) k) (inp_of ev) (boot_of ev) (rt_of ev) s'.
+  inv (with_budget (settle s) k) (inp_of ev) (boot_of ev) (rt_of ev) (vq_of ev) (lq_of s) s'.
 Proof.
   intros Hb He. unfold run_event_crash.
   set (s0 := with_budget (settle s) k).
   assert (Hb0 : base s0) by (unfold base in *; simpl; exact Hb).
-  pose proof (post2_run_event s0 (inp_of ev) (boot_of ev) (rt_of ev) ev Hb0 eq_refl (evok4_evok3 ev He)) as P.
+  assert (Hq : forall t, p_term (n_p s0) < t -> lq_of s (p_log (n_p s0)) t) by (intros t Ht; split; [reflexivity | exact Ht]).
+  pose proof (post2_run_event s0 (inp_of ev) (boot_of ev) (rt_of ev) (vq_of ev) (lq_of s) Hq ev Hb0 eq_refl (evok4_evok3 ev He)) as P.
   destruct (run_event s0 ev) as [[st0 x] | c | p]; simpl in *; try discriminate.
   - intro H. inversion H. subst. eapply inv_vol; eauto.
-  - pose proof (post_new_core s0 (inp_of ev) (boot_of ev) (rt_of ev) (n_id s) (n_cfg s) p P) as Q.
+  - pose proof (post_new_core s0 (inp_of ev) (boot_of ev) (rt_of ev) (vq_of ev) (lq_of s) (n_id s) (n_cfg s) p P) as Q.
     destruct (new_core (n_id s) (n_cfg s) p); simpl in *; try discriminate.
     intro H. inversion H. subst. exact Q.
 Qed.
